@@ -610,7 +610,11 @@ def apply_op(g, op):
     elif k == "b3":
         g.box_matrix = np.array([float(v) for v in op[1]])
     elif k == "b9":
-        g.box_matrix = np.array([[float(v) for v in row] for row in op[1]])
+        M = np.array([[float(v) for v in row] for row in op[1]])
+        # the same 3x3 box as a C-ordered array, a Fortran-ordered one, or a nested list: the box written is a function
+        # of the VALUES (seed C13-9: components picked from `ravel(order='K')`, i.e. memory order)
+        sel = int(abs(M[0][0]) * 1000 + abs(M[1][0]) * 10) % 3
+        g.box_matrix = M if sel == 0 else (np.asfortranarray(M) if sel == 1 else M.tolist())
     elif k == "n":
         g.natoms = int(op[1])
     elif k == "f":
